@@ -1039,6 +1039,19 @@ class Environment(Agent):
 # Exceptions #
 ##############
 
+def _restore_error(cls, args, state):
+    """Rebuilds one of the errors below from its pickled form without calling its constructor.
+
+    The constructors take the offending objects while ``args`` holds the message, so the default way of unpickling an
+    exception (``cls(*args)``) fails for them. That matters when an error crosses a process boundary: a worker of
+    ``Batching.batch_run`` that raised one of these errors made the whole batch hang instead of reporting it.
+    """
+    error = cls.__new__(cls)
+    error.args = args
+    error.__dict__.update(state)
+    return error
+
+
 class AgentNotFoundError(Exception):
     """Exception raised for errors when an agent object cannot be found.
 
@@ -1064,6 +1077,9 @@ class AgentNotFoundError(Exception):
         self.environment = environment
         self.message = f'Agent "{a_id}" could not be found in Environment "{environment.id}"'
         super(AgentNotFoundError, self).__init__(self.message)
+
+    def __reduce__(self):
+        return _restore_error, (type(self), self.args, self.__dict__)
 
 
 class DuplicateAgentError(Exception):
@@ -1092,6 +1108,9 @@ class DuplicateAgentError(Exception):
         self.message = f'Agent "{a_id}" already exists in Environment "{environment.id}"'
         super(DuplicateAgentError, self).__init__(self.message)
 
+    def __reduce__(self):
+        return _restore_error, (type(self), self.args, self.__dict__)
+
 
 class ComponentNotFoundError(Exception):
     """Exception raised for errors when components are accessed on agents that do not have them.
@@ -1119,6 +1138,9 @@ class ComponentNotFoundError(Exception):
         self.component_type = component_type
         self.message = f'Agent {agent.id} does not have a component of type {str(component_type)}.'
         super(ComponentNotFoundError, self).__init__(self.message)
+
+    def __reduce__(self):
+        return _restore_error, (type(self), self.args, self.__dict__)
 
 
 class SystemNotFoundError(Exception):
@@ -1156,3 +1178,6 @@ class ModelCompleteError(Exception):
     def __init__(self):
         self.message = 'execute_systems() was called on a model with status "ModelStatus.COMPLETE".'
         super(ModelCompleteError, self).__init__(self.message)
+
+    def __reduce__(self):
+        return _restore_error, (type(self), self.args, self.__dict__)
